@@ -537,6 +537,18 @@ func resolveDisableExp(r Exp, disable []Exp) ([]Exp, error) {
 			if _, ok := v.Forks[r.Call]; !ok {
 				return append(disable, r), nil
 			}
+		case *SplitExp:
+			// An element of an element: a collection which an enclosing
+			// call splits is split again by this one.  Each fork takes its
+			// own element; dropping this split would leave the enclosing
+			// call's element, which is still a collection.
+			if v.Call != r.Call {
+				if inner, err := resolveDisableExp(v, nil); err != nil {
+					return disable, err
+				} else if len(inner) == 1 && inner[0] == Exp(v) {
+					return append(disable, r), nil
+				}
+			}
 		case *DisabledExp:
 			for _, e := range disable {
 				if v.Disabled.equal(e) == nil {
@@ -852,6 +864,13 @@ func wrapDisabled(d, exp Exp, lookup *TypeLookup) (Exp, error) {
 			se := *d
 			se.Value = &m
 			exp = &se
+		case *SplitExp:
+			// An element of a collection which is itself one element of
+			// what an enclosing call splits.
+			exp = &DisabledExp{
+				Disabled: d,
+				Value:    exp,
+			}
 		default:
 			return exp, &bindingError{
 				Msg: "invalid disable binding " + string(d.getKind()),
